@@ -228,6 +228,8 @@ class World(BaseWorld):
                 op["schedule"][rng.randrange(k)] = float("inf")      # an infinitely hot sweep: every move is accepted
             if rng.random() < 0.3:
                 op["sched_as"] = rng.choice(["tuple", "ndarray", "gen", "range_like"])
+            if rng.random() < 0.1:
+                op["temperature_range"] = [4, 1]      # documented: ignored (with a warning) when an explicit schedule is given
         elif mode == "zeros":
             op["schedule"] = [0] * rng.randint(1, 4) if rng.random() < 0.7 else [0.0, 0]
         else:
@@ -279,6 +281,8 @@ class World(BaseWorld):
         if universe and rng.random() < c["p_init"]:
             vals = (1, -1) if kind == SPIN else (0, 1)
             st = {l: rng.choice(vals) for l in universe}
+            if not matrix and rng.random() < 0.15:
+                st[("__extra", 0)] = vals[0]        # a superset of the model's labels is still a map from the labels to their values
             items = list(st.items())
             rng.shuffle(items)
             op["initial_state"] = enc_state(dict(items))
